@@ -252,6 +252,9 @@ def display_reductions(ctx: Ctx):
                 operands = [node.func.value]
             if operands is None:
                 continue
+            # `sum(1 for ...)` counts, it does not add values up
+            if isinstance(operands[0], (ast.GeneratorExp, ast.ListComp)) and isinstance(operands[0].elt, ast.Constant):
+                continue
             n += 1
             reads = set()
             for a in operands:
